@@ -184,9 +184,6 @@ Proof.
   rewrite un_be32_be32 by (rewrite as_uint32_small; lia).
   rewrite as_int32_uint32 by lia.
   replace (header_size l <? 0) with false by (symmetry; apply Z.ltb_ge; lia).
-  unfold make_bytes.
-  replace (header_size l <? 0) with false by (symmetry; apply Z.ltb_ge; lia).
-  cbn [bind].
   rewrite read_full_app by (symmetry; apply marshal_pairs_length). cbn [bind].
   pose proof (read_pairs_marshal l [] [] [] (pairs_fuel (marshal_pairs l))) as R.
   cbn [app] in R. rewrite app_nil_r in R.
@@ -407,8 +404,7 @@ Proof.
   rewrite zlen_app in Hlen.
   pose proof (un_be32_range sb Hsbok) as Hr. pose proof (as_int32_range _ Hr) as Hr'.
   set (size := as_int32 (un_be32 sb)) in *.
-  destruct (size <? 0) eqn:Es0; [exact I|].
-  unfold make_bytes. rewrite Es0. cbn [bind]. apply Z.ltb_ge in Es0.
+  destruct (size <? 0) eqn:Es0; [exact I|]. apply Z.ltb_ge in Es0.
   destruct (read_full src2 size) as [[buff src3]|e|p|] eqn:E3; cbn [bind];
     try (unfold read_full in E3; destruct ((0 <=? size) && (size <=? zlen src2)); discriminate).
   2:{ unfold read_full in E3. destruct ((0 <=? size) && (size <=? zlen src2)); [discriminate|].
